@@ -16,7 +16,7 @@ from mpsa.match import Scope, is_name, is_none, method_of, names_in, walk_deep_f
 from mpsa.report import Checker
 
 from .c19 import check_batch_ownership
-from .common import STREAMER, STREAMER_ASYNC, TEE, build_cfg
+from .common import STREAMER, STREAMER_ASYNC, TEE, build_cfg, resolve_local
 
 CONSUMING = {'list', 'tuple', 'sorted', 'sum', 'set', 'dict', 'max', 'min', 'any', 'all', 'len', 'next', 'anext', 'deque', 'collections.deque', 'reversed', 'enumerate', 'zip', 'map', 'filter', 'frozenset'}
 EAGER_CONSUMING = CONSUMING - {'enumerate', 'zip', 'map', 'filter', 'reversed'}
@@ -61,6 +61,8 @@ def run(ck: Checker):
     ck.rule('C03-3', 'wrap-previous: every operator method appends exactly one streamlet built on `self.streamlets[-1]` and returns self, or returns the result of another operator method (COUNT)', minimum=20)
     ck.rule('C03-4', 'identities: Peeker.__call__ returns its argument on every return path; the filter_exceptions predicate returns only booleans or raises its own argument', minimum=2)
     ck.rule('C03-5', 'batch ownership: a yielded batch list is never mutated afterwards', minimum=3)
+    ck.rule('C03-6', 'element bookkeeping of the accumulating operators: every pulled element is stored or yielded on every path of its iteration (at most once); a container is never yielded empty or twice and is flushed on every normal end of the stream; head counts exactly; tail keeps a window of n (typestate+COUNT)', minimum=14)
+    ck.rule('C03-7', 'relay exactness of buffer / SyncIter: the producer hands every element over once, unchanged; the consumer yields the dequeued element itself once and ends only on the end marker (COUNT+MUSTPASS)', minimum=9)
     smod, amod, tmod = ck.repo.module(STREAMER), ck.repo.module(STREAMER_ASYNC), ck.repo.module(TEE)
     # ------------------------------------------------------------------ C03-1 constructors
     for mod in (smod, amod, tmod):
@@ -190,7 +192,7 @@ def run(ck: Checker):
                             probs.append(f'filter yields up to {hi} outputs for one element')
                     for n in cfg.nodes:
                         if hn.id in n.loops and isinstance(n.ast, ast.Expr) and isinstance(n.ast.value, ast.Yield):
-                            yv = n.ast.value.value
+                            yv = resolve_local(cfg, n, n.ast.value.value)
                             if 'Filter' in c.name and not is_name(yv, v):
                                 probs.append(f'filter yields `{norm_text(yv)}`, not the element itself')
                             if 'Mapper' in c.name:
@@ -222,3 +224,25 @@ def run(ck: Checker):
     for mod, cname, itn in ((smod, 'Batcher', '__iter__'), (amod, 'AsyncBatcher', '__aiter__'), (smod, 'EagerBatcher', '__iter__')):
         f = mod.cls(cname).method(itn)
         ck.need(check_batch_ownership(ck, 'C03-5', f), f'{f.key}: no `yield <batch>` found')
+    # ------------------------------------------------------------------ C03-6
+    from . import c03ops
+
+    for mod in (smod, amod):
+        for c in streamlet_classes(mod):
+            itn = '__iter__' if c.has_method('__iter__') else ('__aiter__' if c.has_method('__aiter__') else None)
+            if itn is None or c.name in ('Buffer', 'AsyncBuffer', 'EagerBatcher', 'Stream', 'AsyncStream', 'SyncIter', 'AsyncIter') or 'Parmapper' in c.name or c.name in c03ops.DELEGATING:
+                continue
+            f = c.method(itn)
+            c03ops.check_container_typestate(ck, 'C03-6', f, c.name)
+            if c.name not in c03ops.DROPPING:
+                c03ops.check_conservation(ck, 'C03-6', f, c.name)
+            if 'Header' in c.name:
+                c03ops.check_head_count(ck, 'C03-6', f, c.name)
+            if 'Tailer' in c.name:
+                c03ops.check_tail_window(ck, 'C03-6', f, c.name)
+    # ------------------------------------------------------------------ C03-7
+    from . import c05
+
+    for p in c05.pairs(ck):
+        if p.fin is not None:  # the class-style pairs: Buffer, AsyncBuffer, SyncIter
+            c03ops.check_relay(ck, 'C03-7', p)
